@@ -51,8 +51,8 @@ impl Monitor for C12 {
     }
     fn cases(&self, tier: Tier) -> u64 {
         match tier {
-            Tier::Quick => 12_000,
-            Tier::Thorough => 400_000,
+            Tier::Quick => 100_000,
+            Tier::Thorough => 2_000_000,
         }
     }
     fn required_counters(&self) -> Vec<&'static str> {
